@@ -132,7 +132,7 @@ PLANS = {
                            lambda tier, seed: _sim(families.sample(families.export_family("deps4", 1), 300 if tier == "quick" else 5000, seed))),
                 l1=l1(dict(family="deps", invariants=["Inv_C05"], properties=["Live_C05"]),
                       dict(family="abs", invariants=["Inv_C05"]))),
-    "C06": dict(cases=step_cases(["deps", "alloc", "pairs", "deps2", "edge", "fixed", "mainwp", "half", "autocomp"], FULL),
+    "C06": dict(cases=step_cases(["deps", "alloc", "pairs", "deps2", "edge", "fixed", "mainwp", "half", "autocomp", "place", "conveyor", "nest2"], FULL),
                 l1=l1(dict(family="rand", rand=FLAT, invariants=['Inv_C06'], properties=['Prop_C06'], tier=1),
                       dict(family="deps", invariants=["Inv_C06"], properties=["Prop_C06"]),
                       dict(family="alloc", invariants=["Inv_C06"], properties=["Prop_C06"]))),
@@ -463,6 +463,8 @@ def c16_cases(tier, seed):
             f["cost"] = 0
         for w in cfg["wps"][-1:]:
             w["cap"] = rng.choice([0, w["cap"]])
+        # half of them get their numbers assigned as attributes after construction
+        cfg["assignAfter"] = rng.random() < 0.5
         pool.append(cfg)
     # models whose teams target their tasks one-sidedly (as BaseTeam(targeted_task_list=[...]) does)
     for cfg in _rand(tier, seed + 6, 25, 250, "O"):
@@ -739,6 +741,7 @@ PLANS["C07"]["cases"] = both(PLANS["C07"]["cases"], tlc_hist_cases("histC18", ["
 PLANS["C01"]["cases"] = both(PLANS["C01"]["cases"], c01_edit_cases)
 # edits of the model between two runs: no run may depend on what an earlier run derived
 PLANS["C09"]["cases"] = both(PLANS["C09"]["cases"], c01_edit_cases, c05_edit_cases, c09_retarget_cases)
+PLANS["C04"]["cases"] = both(PLANS["C04"]["cases"], c09_retarget_cases)
 # an edited absence calendar is the calendar of the next run
 PLANS["C10"]["cases"] = both(PLANS["C10"]["cases"], c09_retarget_cases, c10_resume_cases, unit2_cases(), c10_backward_cases)
 PLANS["C08"]["cases"] = both(PLANS["C08"]["cases"], c08_hist_cases, unit2_cases(),
@@ -818,7 +821,10 @@ _more_l1("C03", dict(family="conveyor", invariants=["Inv_C03"], properties=["Pro
          dict(family="abs", invariants=["Inv_C03"], properties=["Prop_C03"]))
 _more_l1("C04", dict(family="conveyor", invariants=["Inv_C04"], properties=["Prop_C04"]),
          dict(family="fixed", invariants=["Inv_C04"], properties=["Prop_C04"], quick=True))
-_more_l1("C06", dict(family="fixed", invariants=["Inv_C06"], properties=["Prop_C06"], quick=True))
+_more_l1("C06", dict(family="fixed", invariants=["Inv_C06"], properties=["Prop_C06"], quick=True),
+         dict(family="conveyor", invariants=["Inv_C06"], properties=["Prop_C06"], quick=True),
+         dict(family="place", invariants=["Inv_C06"], properties=["Prop_C06"], quick=True),
+         dict(family="nest2", invariants=["Inv_C06"], properties=["Prop_C06"], quick=True))
 _more_l1("C11", dict(family="fixed", properties=["Prop_C11"], quick=True), dict(family="mainwp", properties=["Prop_C11"], quick=True))
 _more_l1("C02", dict(family="half", invariants=["Inv_C02"], properties=["Prop_C02"], quick=True))
 _more_l1("C01", dict(family="half", invariants=["Inv_C01"], properties=["Prop_C01"], quick=True))
